@@ -72,9 +72,6 @@ theorem flat_spacesT (n : Nat) : flat (spacesT n) = spaces n := by
 theorem spaces_add (a b : Nat) : spaces (a + b) = spaces a ++ spaces b := by
   simp [spaces, List.replicate_append_replicate]
 
-/-- all tokens canonical: they decode back from their bytes -/
-def Canon (c : List Tok) : Prop := ∀ t ∈ c, t.canon
-
 theorem runeCount_flat {c : List Tok} (h : Canon c) : runeCount (flat c) = c.length := by
   simp [runeCount, decodeAll_flat c h]
 
